@@ -22,7 +22,7 @@ def handler(st, opts):
     N, M = [int(v) for v in cfg["N"]], [int(v) for v in cfg["M"]]
     d = len(N)
     eps = 10.0 ** (-cfg["e"])
-    dt = torch.float64
+    dt = torch.complex128 if cfg.get("cx") else torch.float64
     seed = opts.get("seed", 0)
     gen = torch.Generator().manual_seed(8000 + 1000 * cfg["seed"] + 7 * d + cfg["r"] + seed)
     op = cfg["op"]
